@@ -349,4 +349,175 @@ example : (exampleBP.changeDuration "ramp" (.num 3) false).err = none ∧
     (forgeBP (exampleBP.changeDuration "ramp" (.num 3) false).st).toOption.map
       (fun f => starts (f.blocks.map Blk.len) 0) = some [0, 30, 51] := by decide +kernel
 
+/-! ### G11: the waituntil absorbs what happens in front of it -/
+
+/-- `wait_end_to_end` for a blueprint whose segment list is `pre ++ waituntil(t) :: post` *up to
+    segment names* (`BP.Seg.body`) - the form in which `insertSegment`, `removeSegment`, `copy` and `+`
+    leave a blueprint, since they renumber the names. -/
+theorem wait_end_to_end_body (b : BP) (f : Forged) (h : forgeBP b = .ok f)
+    (pre : List Seg) (w : Seg) (post : List Seg) (t : Rat) (tl : List Val)
+    (hb : b.segs.map BP.Seg.body = (pre ++ w :: post).map BP.Seg.body) (hw : w.fn.isWait = true)
+    (ha : w.args = .num t :: tl)
+    (sr : Rat) (ds : List Rat) (hsr : b.SR = .num sr) (hds : b.resolveWaits = .ok ds)
+    (hal : ∀ d ∈ ds.take pre.length, ∃ m : Nat, d * sr = m) (T : Int) (ht : |t * sr - T| ≤ 2/5) :
+    rhe (t * sr) = T ∧
+    ((sumN ((f.blocks.map Blk.len).take (pre.length + 1)) : Nat) : Int) = T ∧
+    (∀ hs : pre.length + 1 < (starts (f.blocks.map Blk.len) 0).length,
+      (((starts (f.blocks.map Blk.len) 0)[pre.length + 1] : Nat) : Int) = T) ∧
+    ∃ hbk : pre.length < f.blocks.length,
+      f.blocks[pre.length].eval? = some (List.replicate f.blocks[pre.length].len 0) := by
+  have hfe : forgeBP { b with segs := pre ++ w :: post } = .ok f := by
+    rw [← forgeBP_body b { b with segs := pre ++ w :: post } hb rfl rfl rfl]; exact h
+  have hde : BP.resolveWaits { b with segs := pre ++ w :: post } = .ok ds := by
+    have : BP.resolveWaits { b with segs := pre ++ w :: post } = b.resolveWaits :=
+      (resolveGo_body _ _ 0 hb).symm
+    rw [this]; exact hds
+  exact wait_end_to_end { b with segs := pre ++ w :: post } f hfe pre w post t tl rfl hw ha sr ds hsr hde hal T ht
+
+/-- non-vacuity: a copy of the example (names renumbered by `copy`) is such a blueprint -/
+example : exampleBP.copy.segs.map BP.Seg.body = ([exampleBP.segs[0]] ++ exampleBP.segs[1] :: [exampleBP.segs[2]]).map BP.Seg.body ∧
+    (forgeBP exampleBP.copy).toOption.isSome = true := by
+  constructor <;> decide +kernel
+
+/-- the block lengths of a forged blueprint are the rounded resolved durations -/
+theorem forged_lens_are_counts (b : BP) (f : Forged) (h : forgeBP b = .ok f) (sr : Rat) (ds : List Rat)
+    (hsr : b.SR = .num sr) (hds : b.resolveWaits = .ok ds) :
+    f.blocks.map Blk.len = ds.map (fun d => (rhe (d * sr)).toNat) ∧ f.N = sumN (f.blocks.map Blk.len) := by
+  obtain ⟨sr', durs, ns, hsr', hd, hn, _, hf⟩ := (forge_ok_iff b f).mp h
+  have e1 : sr' = sr := by rw [hsr] at hsr'; cases hsr'; rfl
+  have e2 : durs = ds := by rw [hds] at hd; cases hd; rfl
+  subst e1 e2
+  obtain ⟨_, hns⟩ := countsGo_ok sr' durs ns hn
+  have hlen := resolveGo_length _ _ _ hd
+  have hnl : ns.length = b.segs.length := by rw [countsGo_length sr' durs ns hn, hlen]
+  have hlens : f.blocks.map Blk.len = ns := by
+    rw [hf]; simp only [assemble]; exact mkBlocks_lens sr' b.segs ns hnl
+  refine ⟨by rw [hlens, hns]; rfl, ?_⟩
+  rw [hlens, hf]; rfl
+
+/-- **The waituntil absorbs whatever differs in front of it.**  Two blueprints at the same sample
+    rate whose segment lists are (up to names) `pre₁ ++ waituntil(t) :: post` and
+    `pre₂ ++ waituntil(t) :: post` - the same `post` behind a waituntil with the same target, any
+    fronts (e.g. before and after inserting, removing or re-timing segments in front of the wait) -
+    both forging, with fronts that resolve to whole numbers of samples:
+    the blocks of `post` have the same lengths in both, `post` starts at sample `T = round(t·SR)`
+    in both, and both waveforms have the same total number of samples. -/
+theorem wait_absorbs (b1 b2 : BP) (pre1 pre2 : List Seg) (w1 w2 : Seg) (post : List Seg) (t : Rat)
+    (tl1 tl2 : List Val)
+    (h1 : b1.segs.map BP.Seg.body = (pre1 ++ w1 :: post).map BP.Seg.body)
+    (h2 : b2.segs.map BP.Seg.body = (pre2 ++ w2 :: post).map BP.Seg.body)
+    (hw1 : w1.fn.isWait = true) (hw2 : w2.fn.isWait = true)
+    (ha1 : w1.args = .num t :: tl1) (ha2 : w2.args = .num t :: tl2)
+    (sr : Rat) (hs1 : b1.SR = .num sr) (hs2 : b2.SR = .num sr)
+    (f1 f2 : Forged) (hf1 : forgeBP b1 = .ok f1) (hf2 : forgeBP b2 = .ok f2)
+    (ds1 ds2 : List Rat) (hd1 : b1.resolveWaits = .ok ds1) (hd2 : b2.resolveWaits = .ok ds2)
+    (hal1 : ∀ d ∈ ds1.take pre1.length, ∃ m : Nat, d * sr = m)
+    (hal2 : ∀ d ∈ ds2.take pre2.length, ∃ m : Nat, d * sr = m)
+    (T : Int) (ht : |t * sr - T| ≤ 2/5) :
+    (f1.blocks.map Blk.len).drop (pre1.length + 1) = (f2.blocks.map Blk.len).drop (pre2.length + 1) ∧
+    ((sumN ((f1.blocks.map Blk.len).take (pre1.length + 1)) : Nat) : Int) = T ∧
+    ((sumN ((f2.blocks.map Blk.len).take (pre2.length + 1)) : Nat) : Int) = T ∧
+    f1.N = f2.N := by
+  obtain ⟨_, hT1, _, _⟩ := wait_end_to_end_body b1 f1 hf1 pre1 w1 post t tl1 h1 hw1 ha1 sr ds1 hs1 hd1 hal1 T ht
+  obtain ⟨_, hT2, _, _⟩ := wait_end_to_end_body b2 f2 hf2 pre2 w2 post t tl2 h2 hw2 ha2 sr ds2 hs2 hd2 hal2 T ht
+  obtain ⟨hl1, hN1⟩ := forged_lens_are_counts b1 f1 hf1 sr ds1 hs1 hd1
+  obtain ⟨hl2, hN2⟩ := forged_lens_are_counts b2 f2 hf2 sr ds2 hs2 hd2
+  have hr1 : BP.resolveGo (pre1 ++ w1 :: post) 0 = .ok ds1 := by
+    rw [← resolveGo_body b1.segs _ 0 h1]; exact hd1
+  have hr2 : BP.resolveGo (pre2 ++ w2 :: post) 0 = .ok ds2 := by
+    rw [← resolveGo_body b2.segs _ 0 h2]; exact hd2
+  obtain ⟨dp1, dq1, _, hpl1, _, hq1, e1⟩ := resolveGo_wait_split pre1 w1 post 0 t tl1 ds1 hw1 ha1 hr1
+  obtain ⟨dp2, dq2, _, hpl2, _, hq2, e2⟩ := resolveGo_wait_split pre2 w2 post 0 t tl2 ds2 hw2 ha2 hr2
+  have hdq : dq1 = dq2 := by rw [hq1] at hq2; cases hq2; rfl
+  subst hdq
+  have hdrop : ∀ (dp : List Rat) (x : Rat) (p : Nat), dp.length = p →
+      ((dp ++ x :: dq1).map (fun d => (rhe (d * sr)).toNat)).drop (p + 1) =
+        dq1.map (fun d => (rhe (d * sr)).toNat) := by
+    intro dp x p hp
+    have : (dp ++ x :: dq1).map (fun d => (rhe (d * sr)).toNat) =
+        (dp ++ [x]).map (fun d => (rhe (d * sr)).toNat) ++ dq1.map (fun d => (rhe (d * sr)).toNat) := by simp
+    rw [this]
+    exact List.drop_left' (by simp [hp])
+  have hD : (f1.blocks.map Blk.len).drop (pre1.length + 1) = (f2.blocks.map Blk.len).drop (pre2.length + 1) := by
+    rw [hl1, hl2, e1, e2, hdrop dp1 _ _ hpl1, hdrop dp2 _ _ hpl2]
+  refine ⟨hD, hT1, hT2, ?_⟩
+  have hsplit : ∀ (l : List Nat) (k : Nat), sumN l = sumN (l.take k) + sumN (l.drop k) := by
+    intro l k
+    rw [← sumN_append, List.take_append_drop]
+  rw [hN1, hN2, hsplit _ (pre1.length + 1), hsplit (f2.blocks.map Blk.len) (pre2.length + 1), hD]
+  have : sumN ((f1.blocks.map Blk.len).take (pre1.length + 1)) =
+      sumN ((f2.blocks.map Blk.len).take (pre2.length + 1)) := by
+    have := hT1.trans hT2.symm
+    exact_mod_cast this
+  rw [this]
+
+/-- a `changeDuration` call that addresses no segment behind the waituntil leaves those segments
+    literally as they are -/
+theorem changeDuration_keeps_behind_wait (b : BP) (name : String) (dur : Val) (all : Bool)
+    (pre : List Seg) (w : Seg) (post : List Seg) (hb : b.segs = pre ++ w :: post)
+    (hnt : ∀ s ∈ post, (b.targets name all).2.contains s.name = false) :
+    ∃ pre' w', (b.changeDuration name dur all).st.segs = pre' ++ w' :: post ∧
+      pre'.length = pre.length ∧ w'.fn = w.fn ∧ w'.args = w.args ∧
+      (b.changeDuration name dur all).st.SR = b.SR := by
+  unfold BP.changeDuration
+  split
+  · rename_i d
+    split
+    · exact ⟨pre, w, hb, rfl, rfl, rfl, rfl⟩
+    · split
+      · exact ⟨pre, w, hb, rfl, rfl, rfl, rfl⟩
+      · split
+        · exact ⟨pre, w, hb, rfl, rfl, rfl, rfl⟩
+        · refine ⟨pre.map (BP.setDur (b.targets name all).2 d), BP.setDur (b.targets name all).2 d w,
+            ?_, by simp, (setDur_fn_args _ _ _).1, (setDur_fn_args _ _ _).2, rfl⟩
+          simp only [hb, List.map_append, List.map_cons, List.append_cancel_left_eq, List.cons.injEq, true_and]
+          conv_rhs => rw [← List.map_id post]
+          apply List.map_congr_left
+          intro s hs
+          unfold BP.setDur
+          rw [if_neg (by rw [hnt s hs]; simp)]
+          rfl
+  · exact ⟨pre, w, hb, rfl, rfl, rfl, rfl⟩
+
+/-- **... no matter how the preceding durations are later changed, nothing behind the wait moves.**
+    `b = pre ++ waituntil(t) :: post`; a `changeDuration` call (any name, `replaceeverywhere` or
+    not, accepted or refused) that addresses no segment of `post`; the blueprint forges before and
+    after and the fronts resolve to whole numbers of samples.  Then every block of `post` keeps its
+    length, `post` starts at sample `T = round(t·SR)` before and after, and the waveform keeps its
+    total number of samples: the waituntil absorbs the change completely. -/
+theorem wait_absorbs_changeDuration (b : BP) (name : String) (dur : Val) (all : Bool)
+    (pre : List Seg) (w : Seg) (post : List Seg) (t : Rat) (tl : List Val)
+    (hb : b.segs = pre ++ w :: post) (hw : w.fn.isWait = true) (ha : w.args = .num t :: tl)
+    (hnt : ∀ s ∈ post, (b.targets name all).2.contains s.name = false)
+    (sr : Rat) (hsr : b.SR = .num sr)
+    (f f' : Forged) (hf : forgeBP b = .ok f) (hf' : forgeBP (b.changeDuration name dur all).st = .ok f')
+    (ds ds' : List Rat) (hds : b.resolveWaits = .ok ds)
+    (hds' : (b.changeDuration name dur all).st.resolveWaits = .ok ds')
+    (hal : ∀ d ∈ ds.take pre.length, ∃ m : Nat, d * sr = m)
+    (hal' : ∀ d ∈ ds'.take pre.length, ∃ m : Nat, d * sr = m)
+    (T : Int) (ht : |t * sr - T| ≤ 2/5) :
+    (f'.blocks.map Blk.len).drop (pre.length + 1) = (f.blocks.map Blk.len).drop (pre.length + 1) ∧
+    ((sumN ((f.blocks.map Blk.len).take (pre.length + 1)) : Nat) : Int) = T ∧
+    ((sumN ((f'.blocks.map Blk.len).take (pre.length + 1)) : Nat) : Int) = T ∧
+    f'.N = f.N := by
+  obtain ⟨pre', w', hsegs, hl, hfn, hargs, hSR⟩ := changeDuration_keeps_behind_wait b name dur all pre w post hb hnt
+  have := wait_absorbs b (b.changeDuration name dur all).st pre pre' w w' post t tl tl
+    (by rw [hb]) (by rw [hsegs]) hw (by rw [hfn]; exact hw) ha (by rw [hargs]; exact ha) sr hsr
+    (by rw [hSR]; exact hsr) f f' hf hf' ds ds' hds hds' hal (by rw [hl]; exact hal') T ht
+  rw [hl] at this
+  exact ⟨this.1.symm, this.2.1, this.2.2.1, this.2.2.2.symm⟩
+
+/-- non-vacuity: lengthen `ramp` from 2 s to 3 s in front of `waituntil(5.1)`: the wait shrinks from
+    31 to 21 samples, `ramp2` still starts at sample 51, the total stays 61 -/
+example : exampleBP.segs = [exampleBP.segs[0]] ++ exampleBP.segs[1] :: [exampleBP.segs[2]] ∧
+    (∀ s ∈ [exampleBP.segs[2]], (exampleBP.targets "ramp" false).2.contains s.name = false) ∧
+    exampleBP.resolveWaits = .ok [2, 31/10, 1] ∧
+    (exampleBP.changeDuration "ramp" (.num 3) false).st.resolveWaits = .ok [3, 21/10, 1] ∧
+    (2 : Rat) * 10 = (20 : Nat) ∧ (3 : Rat) * 10 = (30 : Nat) ∧ |(51/10 : Rat) * 10 - (51 : Int)| ≤ 2/5 ∧
+    (forgeBP exampleBP).toOption.map (fun f => (f.blocks.map Blk.len, f.N)) = some ([20, 31, 10], 61) ∧
+    (forgeBP (exampleBP.changeDuration "ramp" (.num 3) false).st).toOption.map
+      (fun f => (f.blocks.map Blk.len, f.N)) = some ([30, 21, 10], 61) := by
+  refine ⟨by decide +kernel, by decide +kernel, by decide +kernel, by decide +kernel, by norm_num, by norm_num,
+    by norm_num, by decide +kernel, by decide +kernel⟩
+
 end BB.C04
